@@ -813,6 +813,32 @@ Proof.
   split; [apply inv_no_race; auto|]. split; [apply inv_no_fault; auto|apply inv_progress; auto].
 Qed.
 
+(* what the executable check of one control path means: every map write happens while the write lock
+   is held, every map read while the read or the write lock is held, and the path ends holding nothing *)
+Lemma trace_ok_meaning : forall tr, trace_ok tr = true ->
+  (forall pre post, tr = pre ++ EvWrite :: post -> run_hold HN pre = Some HW) /\
+  (forall pre post, tr = pre ++ EvRead :: post -> run_hold HN pre = Some HR \/ run_hold HN pre = Some HW) /\
+  run_hold HN tr = Some HN.
+Proof.
+  intros tr H. pose proof (trace_ok_run _ H) as Hr. repeat split; auto.
+  - intros pre post E. subst tr. rewrite run_hold_app in Hr.
+    destruct (run_hold HN pre) as [h|]; try discriminate. simpl in Hr.
+    destruct h; simpl in Hr; try discriminate; reflexivity.
+  - intros pre post E. subst tr. rewrite run_hold_app in Hr.
+    destruct (run_hold HN pre) as [h|]; try discriminate. simpl in Hr.
+    destruct h; simpl in Hr; try discriminate; auto.
+Qed.
+
+Lemma discipline_ok_meaning : forall sk, discipline_ok sk = true ->
+  forall tr, In tr (paths sk) ->
+    (forall pre post, tr = pre ++ EvWrite :: post -> run_hold HN pre = Some HW) /\
+    (forall pre post, tr = pre ++ EvRead :: post -> run_hold HN pre = Some HR \/ run_hold HN pre = Some HW) /\
+    run_hold HN tr = Some HN.
+Proof.
+  intros sk H tr Hin. unfold discipline_ok in H. rewrite forallb_forall in H. specialize (H _ Hin).
+  apply andb_true_iff in H. apply trace_ok_meaning. tauto.
+Qed.
+
 (* the executable race test is sound (used by the Examples and by the driver's search) *)
 Lemma raceb_pair_sound : forall V (s : @state V) i j, raceb_pair s i j = true -> race s.
 Proof.
